@@ -220,7 +220,11 @@ func (c *Collection) chunks() int {
 	}
 
 	max, _ := c.fill.Max()
-	return int(commit.ChunkAt(max) + 1)
+	chunks := int(commit.ChunkAt(max) + 1)
+	if n := len(c.commits); n < chunks {
+		return n // the chunks beyond hold nothing but offsets reserved by transactions in flight
+	}
+	return chunks
 }
 
 // readChunk acquires appropriate locks for a chunk and executes a read callback.
